@@ -13,6 +13,15 @@ Relations
           with generated --region / --chroms / --popsize (absent = click's default) /
           --only_breakpoint: the arguments validate_params receives, the population size
           _simulate receives, the written .bp file and the final outcome.
+  decision : validate_params + _prepare_coords alone (nothing is simulated) on configurations
+          whose sample count / population size / generation number / region coordinates are
+          around 2^31, 2^32, 2^63, 10^30: acceptance and the effective population size, or
+          the refusal.
+The front stream also holds: two documented requirements violated at once (the refusal has to
+name one of them), Valid configurations on width boundaries (region end / start and last map
+position next to the int32 sentinel, 2^32, 2^63; 127 | 128 samples), and - compared with the
+model only - maps whose cM decreases, a region with several chromosomes, markers at or beyond
+the sentinel.
 """
 import copy
 import os
@@ -28,7 +37,8 @@ from .core import Relation, err_kind
 
 PROP = "C20"
 CLAIMED = True
-COQ_MODULES = ["C02_Check", "C20_Check", "C20_Proofs", "C20_Proofs2", "C20_Proofs3", "C20_Proofs4"]
+COQ_MODULES = ["C02_Check", "C20_Check", "C20_Proofs", "C20_Proofs2", "C20_Proofs3", "C20_Proofs4",
+               "C20_ProofsRefuse", "C20_Sim", "C20_ProofsSim", "C20_ProofsSim2", "C20_ProofsSim3", "C20_ProofsSim4"]
 PROPERTY_MODULE = "C20_Property"
 ALLOWED_AXIOMS = []
 RULE = (
@@ -37,7 +47,9 @@ RULE = (
     "to completion within the time limit, the written .bp passing C02's file checker: 2n framed haplotypes each tiling "
     "every requested chromosome up to the sentinel with positive-fraction source labels) or violates a documented requirement and nothing else "
     "(must be refused before the first generation by an error naming a violated requirement). "
-    "cli: non-trivial = the option strings parse. Distinct = distinct canonical JSON of the input."
+    "cli: non-trivial = the option strings parse. decision: non-trivial = Valid or a documented violation (quantities around "
+    "2^31 .. 10^30; nothing is simulated, only acceptance + effective population size / the refusal are judged). "
+    "Distinct = distinct canonical JSON of the input."
 )
 TRUSTED = [
     "float32 parsing/summation of the fractions is modelled by exact rationals: generated sums are exactly 1 "
@@ -46,7 +58,10 @@ TRUSTED = [
     "glob listing of the map directory (file names) and os.path.isdir are inputs of the model",
     "deliberate refusals are recognised by message keywords (MESSAGES); an unknown wording of a plain Exception / click "
     "error counts as an explanatory refusal of unknown class (holds accepts it, agree does not)",
-    "the simulation itself (after acceptance) is observed, not modelled here (C01/C02 model it)",
+    "the simulation after acceptance is observed on the implementation (completion, population sizes, the written file); the "
+    "theorem C20_accepted_completes is about the composed model (C20's front + C01/C02's simulation + write_breakpoints) under "
+    "numpy's contracts on the draws (stream_ok, idx_ok) - the draws of a C20 run are not recorded, C01/C02 tie that part of the "
+    "model to the code with recorded draws",
     "the .bp file is parsed by this module's own parser (labels -> index among the header's population columns, "
     "X -> 23); the cM column is not encoded (no demand on it) and haptools' own readers are not run (C02 does both)",
     "'simulated to completion' = simulate_gt and write_breakpoints return within SIM_TIMEOUT seconds "
@@ -55,7 +70,8 @@ TRUSTED = [
 ASSUMPTIONS = [
     "Valid adds to the documented requirements what the property's last sentence and the docs say: fractions in [0,1], "
     "first generation without admixed contribution, at least one generation line, chromosome list sorted, each map "
-    "sorted by position and belonging to the chromosome of its file name",
+    "sorted by position (bp strictly increasing in [0, 2^31-1), cM never decreasing) and belonging to the chromosome of its "
+    "file name, a region only together with exactly one chromosome (what the CLI passes)",
     "reference / sample-info requirements are demanded only without --only_breakpoint (they are not read otherwise)",
     "cli: the requirements are judged on the arguments validate_params actually received",
     "the chromosome end in a .bp file is the int32 sentinel 2147483647 also with --region (C02: _prepare_coords sets the "
@@ -63,8 +79,11 @@ ASSUMPTIONS = [
     "'effective population size' is read as both the value validate_params returns and the population size handed to "
     "every call of _simulate; only '>= 10 * samples' is demanded (the text does not say '>= --popsize')",
     "undocumented malformations (blank lines, non-numeric fraction / map tokens, empty map file, unreadable reference, "
-    "fractions outside [0,1] summing to 1, admixed contribution in the first generation, unsorted / repeated chromosomes) "
-    "are compared with the model only; the property's list does not name them",
+    "fractions outside [0,1] summing to 1, admixed contribution in the first generation, unsorted / repeated chromosomes, "
+    "cM going down along a map, a region with several chromosomes, markers at or beyond 2^31-1) "
+    "are compared with the model only; the property's list of refusals does not name them (the code accepts most of them and "
+    "the simulation then fails or mis-tiles: C20_accepted_then_failing shows it on the model)",
+    "two documented requirements violated at once: the refusal has to name one of the violated ones",
 ]
 
 MESSAGES = [
@@ -568,8 +587,106 @@ def u_dup_chrom(s, rng):
     return "u:chromosome-requested-twice"
 
 
+def u_cm_decreasing(s, rng):
+    """genetic positions going down while base-pair positions go up: accepted; the events of a child are then ordered
+    by cM, not by bp, and the written blocks need not increase (C20_accepted_then_failing, w_cm_down)"""
+    rows = s["files"][_file_of(s, s["chroms"][0])][1]
+    if len(rows) < 3:
+        return None
+    i = int(rng.integers(1, len(rows) - 1))
+    rows[i][2] = f"{max(float(r[2]) for r in rows) + float(rng.choice([0.5, 50, 300])):.6f}"
+    return "u:map-cM-decreasing"
+
+
+def u_region_two_chroms(s, rng):
+    """a region together with more than one chromosome (the CLI cannot produce it): accepted; _prepare_coords keeps one
+    chromosome's end coordinate and _simulate then indexes past it"""
+    if s["region"] is not None or len(s["chroms"]) < 2:
+        return None
+    bps = [int(r[3]) for r in s["files"][_file_of(s, s["chroms"][0])][1]]
+    s["region"] = [bps[0], bps[-1] + int(rng.integers(0, 1000))]
+    return "u:region-with-several-chromosomes"
+
+
+def u_bp_sentinel(s, rng):
+    """a marker at or beyond np.iinfo(np.int32).max, the value the code uses as 'end of chromosome'"""
+    rows = s["files"][_file_of(s, s["chroms"][0])][1]
+    base = int(rng.choice([2**31 - 1, 2**31, 2**32 - 1, 2**32, 2**63]))
+    where = str(rng.choice(["last", "middle"])) if len(rows) > 2 else "last"
+    if where == "last":
+        rows[-1][3] = str(base)
+    else:
+        j = int(rng.integers(1, len(rows) - 1))
+        for k in range(j, len(rows)):
+            rows[k][3] = str(base + 10 * (k - j))
+    return f"u:map-bp-at-or-beyond-int32-max@{where}"
+
+
 UNDOC = [u_blank_gen, u_frac_token, u_map_token, u_empty_map, u_mapdir, u_ref, u_sinfo_short, u_unsorted_chroms,
-         u_frac_range, u_first_admixed, u_no_gens, u_empty_model, u_surplus_map, u_dup_chrom]
+         u_frac_range, u_first_admixed, u_no_gens, u_empty_model, u_surplus_map, u_dup_chrom,
+         u_cm_decreasing, u_region_two_chroms, u_bp_sentinel]
+
+
+def clause_no(label):
+    return label.split(":")[0]
+
+
+def double_mutation(s, rng):
+    """two documented requirements violated at once: the refusal has to name one of them (whichever the code meets first)"""
+    for _ in range(8):
+        a, b = (MUTATORS[int(j)] for j in rng.choice(len(MUTATORS), size=2, replace=False))
+        t = copy.deepcopy(s)
+        try:
+            la = a(t, rng)
+            lb = b(t, rng) if la is not None else None
+        except Exception:  # noqa - the second mutator does not apply to what the first left
+            continue
+        if la is None or lb is None or clause_no(la) == clause_no(lb):
+            continue
+        s.clear()
+        s.update(t)
+        return f"2x:{clause_no(la)}+{clause_no(lb)}:{la.split(':', 1)[1]}+{lb.split(':', 1)[1]}"
+    return None
+
+
+WIDTH_COORDS = [2**31 - 2, 2**31 - 1, 2**31, 2**32 - 1, 2**32, 2**63 - 1, 2**63]
+
+
+def width_valid(s, rng, samples_ok=True):
+    """Valid configurations on the width boundaries of the quantities the code handles: region coordinates and the
+    last map position next to int32 max (the chromosome-end sentinel), 2^32, 2^63; sample counts 127 | 128 (no
+    fixed-width array holds a sample count on this path, and such a run writes 256 haplotypes: thorough tier only)."""
+    kind = str(rng.choice(["region-end", "region-beyond-map", "last-marker", "samples", "region-end", "last-marker"]))
+    if kind == "samples" and not samples_ok:
+        kind = "region-beyond-map"
+    c = s["chroms"][0]
+    rows = s["files"][_file_of(s, c)][1]
+    bps = [int(r[3]) for r in rows]
+    if kind.startswith("region"):
+        s["chroms"] = [c]
+        big = int(rng.choice(WIDTH_COORDS))
+        if kind == "region-end":
+            s["region"] = [int(rng.choice(bps)) - int(rng.integers(0, 2)), big]
+        else:
+            s["region"] = [max(bps[-1] + 1, int(rng.choice(WIDTH_COORDS[:3]))), big]
+            if s["region"][0] > s["region"][1]:
+                s["region"][1] = s["region"][0]
+        return f"valid:width-{kind}-{big}"
+    if kind == "last-marker":
+        if len(rows) > 2 and rng.random() < 0.5:
+            rows[-2][3] = str(2**31 - 3)
+        rows[-1][3] = str(2**31 - 2)
+        if s["region"] is not None:
+            s["region"] = [bps[0], int(rng.choice(WIDTH_COORDS))]
+        return "valid:width-last-marker-2^31-2"
+    n = int(rng.choice([127, 128]))
+    s["htoks"][0] = str(n)
+    s["gens"] = s["gens"][:2]
+    for j, g in enumerate(s["gens"]):
+        g["g"] = j + 1
+    s["popsize"] = int(rng.choice([1, 10 * n - 1, 10 * n]))
+    s["norepl"] = False
+    return f"valid:width-samples-{n}"
 
 
 INT_TOKENS = ["0", "1", "2", "3", "-1", "+1", "+2", "+0", "-0", "00", "01", "002", "1_0", "1__0", "_1", "1_", "1.0", "1.",
@@ -607,22 +724,30 @@ def token_cases(rng, positions=None):
     return out
 
 
-def gen_front(rng, n):
+def gen_front(rng, n, tier="quick"):
     out = []
     k = 0
+    wide_done = 0
     while len(out) < n:
         s = structured(rng)
         r = k % 20
         k += 1
-        if r < 5:
+        if r < 4:
             label = "valid"
+        elif r == 4:
+            # width boundaries; the (slow) 127 | 128 sample case at most once per run
+            label = width_valid(s, rng, samples_ok=(tier == "thorough" and wide_done < 6))
+            if label.startswith("valid:width-samples"):
+                wide_done += 1
         elif r < 7:
             # option combinations: --popsize grid x --only_breakpoint x (region, reference type, no_replacement as drawn)
             s["popsize"], tag = pick_popsize(int(s["htoks"][0]), rng)
             s["only_bp"] = bool(rng.random() < 0.6)
             label = f"valid:popsize={tag}"
-        elif r < 17:
+        elif r < 16:
             label = MUTATORS[int(rng.integers(0, len(MUTATORS)))](s, rng)
+        elif r == 16:
+            label = double_mutation(s, rng)
         else:
             label = UNDOC[int(rng.integers(0, len(UNDOC)))](s, rng)
         if label is None:
@@ -933,6 +1058,17 @@ def bp_malformed(sim, chroms, n):
     return "" if ok else " but the written .bp is not a well-formed tiling of the requested chromosomes"
 
 
+def label_text(label):
+    """semantic description of a generator label (for signatures) and its leading clause number"""
+    num = label.split(":")[0]
+    if num == "2x":
+        a, b = label.split(":")[1].split("+")
+        return (f"violates requirements {a} ({CLAUSE_TEXT[int(a)]}) and {b} ({CLAUSE_TEXT[int(b)]})"), num
+    if num.isdigit():
+        return "violates requirement " + num + " (" + CLAUSE_TEXT[int(num)] + ")", num
+    return ("valid" if num == "valid" else "undocumented malformation"), num
+
+
 def py_classify(inp):
     """Python re-statement of the narrow documented violations (labels for evidence / signature only)."""
     return inp.get("label", "?")
@@ -945,7 +1081,7 @@ class Front(Relation):
     coq_case_type = "vcase"
     coq_model = "model_front"
     coq_imports = ["Tracts", "C02_Model", "C20_Model"]
-    budget = {"quick": 1100, "thorough": 12000}
+    budget = {"quick": 1000, "thorough": 12000}
     timeout_per_case = 90
     max_cases_per_shard = 70
     max_chars_per_shard = 110_000
@@ -953,7 +1089,7 @@ class Front(Relation):
                ("haptools/sim_genotype.py", "simulate_gt")]
 
     def generate(self, rng, n, tier):
-        return gen_front(rng, n)
+        return gen_front(rng, n, tier)
 
     def exhaustive(self, tier):
         # every mutator x every line position on one small fixed configuration, both flag settings
@@ -982,6 +1118,10 @@ class Front(Relation):
                         s["only_bp"] = only_bp
                         s["ref"]["kind"] = kind
                         out.append(render(s, rng, f"valid:popsize={tag}"))
+        # width boundaries, incl. 127 | 128 samples
+        for j in range(24):
+            s = structured(rng)
+            out.append(render(s, rng, width_valid(s, rng, samples_ok=(j < 6))))
         return out + token_cases(rng)
 
     def run_impl(self, inp):
@@ -1001,10 +1141,13 @@ class Front(Relation):
         return not inp["label"].startswith("u:")
 
     def classes(self, inp, obs):
-        out = [inp["label"].split("@")[0], "only_bp" if inp["only_bp"] else "with-reference",
-               "region" if inp["region"] else "no-region"]
+        lab = inp["label"]
+        out = [":".join(lab.split(":")[:2]) if lab.startswith("2x:") else lab.split("@")[0],
+               "only_bp" if inp["only_bp"] else "with-reference", "region" if inp["region"] else "no-region"]
+        if lab.startswith("2x:"):
+            out.append("two-requirements-violated")
         out.append(popsize_class(inp["popsize"], header_n(inp)) + ("+only_bp" if inp["only_bp"] else ""))
-        if "@" in inp["label"]:
+        if "@" in inp["label"] and not lab.startswith("2x:"):
             out.append("line@" + inp["label"].split("@")[1])
         if isinstance(obs, dict) and "front" in obs:
             f = obs["front"]
@@ -1053,9 +1196,7 @@ class Front(Relation):
             yield dict(inp, region=[a + 1, a])
 
     def signature(self, inp, obs):
-        num = inp["label"].split(":")[0]
-        lab = ("violates requirement " + num + " (" + CLAUSE_TEXT[int(num)] + ")") if num.isdigit() else \
-            "valid" if num == "valid" else "undocumented malformation"
+        lab, num = label_text(inp["label"])
         f = obs.get("front") if isinstance(obs, dict) else None
         if f is None:
             what = "unobserved"
@@ -1332,7 +1473,157 @@ class Cli(Relation):
         return f"cli {rk}{flag}: {what}"
 
 
-RELATIONS = [Front(), Cli()]
+# ---------------------------------------------------------------------------
+# decision only: quantities too large to simulate
+
+
+HUGE = [2**31 - 1, 2**31, 2**32 - 1, 2**32, 2**63 - 1, 2**63, 2**64, 10**30]
+HUGE_TOKENS = [str(x) for x in HUGE] + ["+2147483648", "00000000000000000002147483648", "2_147_483_648", "1_000_000_000_000_000_000_000",
+                                        "0000000000000000000000003", "4294967296.0", "1e10", "2147483648 "]
+
+
+def gen_decision(rng, n):
+    """Valid configurations (and documented violations) whose sample count / population size / generation number /
+    region is around 2^31, 2^32, 2^63, 10^30: only validate_params and _prepare_coords are run on them."""
+    out = []
+    while len(out) < n:
+        s = structured(rng)
+        kind = str(rng.choice(["samples", "popsize", "samples+popsize", "generation", "region", "region-start>end",
+                               "popsize-negative", "samples-negative", "norepl", "map-bp", "map-chrom"]))
+        big = int(rng.choice(HUGE))
+        if kind in ("samples", "samples+popsize"):
+            s["htoks"][0] = str(rng.choice(HUGE_TOKENS))
+            s["norepl"] = False
+            if kind == "samples+popsize":
+                s["popsize"] = int(rng.choice(HUGE)) + int(rng.integers(-1, 2))
+            label = "valid:huge-" + kind if s["htoks"][0].strip().replace("_", "").lstrip("+").isdigit() else "1:samples-non-integer"
+        elif kind == "popsize":
+            s["popsize"] = big + int(rng.integers(-1, 2))
+            label = "valid:huge-popsize"
+        elif kind == "generation":
+            tok = str(rng.choice(HUGE_TOKENS[:11]))
+            s["gens"][-1]["g"] = tok
+            label = "valid:huge-generation"
+        elif kind == "region":
+            c = s["chroms"][0]
+            bps = [int(r[3]) for r in s["files"][_file_of(s, c)][1]]
+            s["chroms"] = [c]
+            a = int(rng.choice([bps[0], bps[-1], 2**31 - 2, 2**31 - 1, 2**31, 2**32]))
+            s["region"] = [a, max(a, big) + int(rng.integers(0, 2))]
+            label = "valid:huge-region"
+        elif kind == "region-start>end":
+            c = s["chroms"][0]
+            s["chroms"] = [c]
+            s["region"] = [big + 1, int(rng.choice([0, 1, big, big - 1, 2**31 - 1]))]
+            if s["region"][0] <= s["region"][1]:
+                s["region"][1] = s["region"][0] - 1
+            label = "12:region-start-gt-end-huge"
+        elif kind == "popsize-negative":
+            s["popsize"] = -big - int(rng.integers(0, 2))
+            label = "9:popsize-non-positive-huge"
+        elif kind == "samples-negative":
+            s["htoks"][0] = "-" + str(big)
+            label = "1:samples-lt-1-huge"
+        elif kind == "norepl":
+            s["only_bp"], s["norepl"] = False, True
+            s["htoks"][0] = str(big)
+            label = "11:too-few-samples-without-replacement-huge"
+        elif kind == "map-bp":
+            rows = s["files"][_file_of(s, s["chroms"][0])][1]
+            rows[-1][3] = str(big)
+            label = "u:map-bp-at-or-beyond-int32-max@last"
+        else:
+            rows = s["files"][_file_of(s, s["chroms"][0])][1]
+            rows[int(rng.integers(0, len(rows)))][0] = str(big)
+            label = "u:map-chromosome-column-huge"
+        out.append(render(s, rng, label))
+    return out
+
+
+def run_decision(inp, d):
+    """validate_params, then _prepare_coords exactly as simulate_gt calls it before the first generation"""
+    import glob
+
+    import haptools.sim_genotype as sg
+
+    model, mapdir, ref, sinfo = materialise(inp, d)
+    region = None
+    if inp["region"] is not None:
+        region = {"chr": inp["chroms"][0] if inp["chroms"] else "1", "start": inp["region"][0], "end": inp["region"][1]}
+    obs = {"listing": sorted_listing(glob.glob(f"{mapdir}/*.map")), "isdir": os.path.isdir(mapdir)}
+    try:
+        ps = sg.validate_params(model, mapdir, list(inp["chroms"]), inp["popsize"], ref, sinfo, inp["norepl"],
+                                region, inp["only_bp"])
+    except Exception as e:  # noqa
+        obs["front"] = classify_exc(e)
+        obs["stage"] = "validate_params"
+        return obs
+    try:
+        sg._prepare_coords(mapdir, list(inp["chroms"]), region)
+    except Exception as e:  # noqa
+        obs["front"] = classify_exc(e)
+        obs["stage"] = "_prepare_coords"
+        return obs
+    obs["front"] = {"accept": int(ps)}
+    return obs
+
+
+class Decision(Relation):
+    name = "decision"
+    coq_module = "C20_Check"
+    coq_check = "check_decision"
+    coq_case_type = "dcase"
+    coq_model = "model_decision"
+    coq_imports = ["Tracts", "C02_Model", "C20_Model"]
+    budget = {"quick": 100, "thorough": 2500}
+    timeout_per_case = 60
+    max_cases_per_shard = 70
+    max_chars_per_shard = 110_000
+    anchors = [("haptools/sim_genotype.py", "validate_params"), ("haptools/sim_genotype.py", "_prepare_coords")]
+
+    def generate(self, rng, n, tier):
+        return gen_decision(rng, n)
+
+    def exhaustive(self, tier):
+        return gen_decision(np.random.default_rng(2020), 160 if tier == "quick" else 600)
+
+    def run_impl(self, inp):
+        return in_tempdir(lambda d: run_decision(inp, d))
+
+    def encode(self, inp, obs):
+        if not isinstance(obs, dict) or "front" not in obs:
+            listing = [f"{inp['mapdir']}/{nm}" for nm, _ in inp["files"] if nm.endswith(".map")]
+            return f"(mkdc {vin_term(inp, listing, inp['mapdir'] != 'no_such_dir')} (Crash 97))"
+        return f"(mkdc {vin_term(inp, obs['listing'], obs['isdir'])} {outcome_term(obs['front'])})"
+
+    def nontrivial(self, inp, obs):
+        return not inp["label"].startswith("u:")
+
+    def classes(self, inp, obs):
+        out = [inp["label"].split("@")[0], "only_bp" if inp["only_bp"] else "with-reference"]
+        if isinstance(obs, dict) and "front" in obs:
+            f = obs["front"]
+            out.append("accepted" if "accept" in f else f"reject-{f['reject']}" if "reject" in f else f"crash-{f['cls']}")
+        return out
+
+    def shrink(self, inp):
+        yield from Front.shrink(self, inp)
+
+    def mutate(self, inp, rng):
+        yield dict(inp, only_bp=not inp["only_bp"])
+        for x in HUGE[:6]:
+            yield dict(inp, popsize=int(x))
+            yield dict(inp, popsize=-int(x))
+
+    def signature(self, inp, obs):
+        lab, num = label_text(inp["label"])
+        f = obs.get("front") if isinstance(obs, dict) else None
+        what = "unobserved" if f is None else f"accepted with population size {f['accept']}" if "accept" in f else \
+            f"refused with message class {f['reject']}" if "reject" in f else f"{obs.get('stage')} raised {f['cls']}"
+        return f"decision input {lab}: {what}"
+
+
+RELATIONS = [Front(), Cli(), Decision()]
 
 LEVEL_TEXT = (
     "Coq theorems over all inputs (any file contents, any whitespace, any listing of the map directory) about a Gallina "
@@ -1341,14 +1632,20 @@ LEVEL_TEXT = (
     "that is really violated, the population size validate_params returns is max(--popsize, 10 * samples) for both values "
     "of --only_breakpoint, the region test does not depend on --only_breakpoint; the checker's demand on the written "
     "breakpoint file (C02's holds_bp) is proved to mean 2n framed haplotypes each tiling every requested chromosome up to "
-    "the sentinel with positive-fraction source labels. The model is tied to /repo on every run by running validate_params -> simulate_gt -> "
+    "the sentinel with positive-fraction source labels. 'Accepted and then simulated to completion' is a theorem about the "
+    "composed model simgenotype = front o simulate_gt's generations (C01/C02 models) o write_breakpoints built from the same "
+    "input record: for every Valid input and every stream of draws meeting numpy's contracts the run returns rows that pass "
+    "that same file checker (C20_accepted_completes); C20's and C02's models of _prepare_coords agree on Valid inputs; the "
+    "events any mask selects on a Valid map are ordered as C02's tiling theorem needs. The model is tied to /repo on every run by running validate_params -> simulate_gt -> "
     "write_breakpoints and the CLI on generated valid / singly-malformed configurations and evaluating agreement and the "
     "property's checker inside Coq."
 )
 LEVEL_NOTE = (
     "'Accepted inputs simulate to completion' is observed on every accepted generated configuration here (return within a "
     "time limit, population size received by every _simulate call, C02's file checker on the written .bp) and proved "
-    "for the model of the simulation in C02 (simulate_total / tiling); it is not re-proved in C20. float32 arithmetic "
+    "for the composed model under numpy's contracts on the draws (choice(p) returns an index of positive probability, "
+    "randint(popsize) < popsize, one randint(2) per chromosome; numpy's own argument checks are modelled); the draws of "
+    "C20's runs are not recorded (C01/C02 do that). float32 arithmetic "
     "of the fraction sum is abstracted to exact rationals (valid under the property's 'clear margin'). Python's "
     "int/float/split/regex are modelled for ASCII input."
 )
